@@ -15,6 +15,7 @@ import networkx as nx
 
 from ..core import astutil as au
 from ..core.cfg import CFG
+from ..core.effects import root_name as _root_name
 from ..core.report import AnalysisError
 from ..core.tables import FiniteEval
 from ..core.template import find, has
@@ -488,6 +489,60 @@ def to_dict_tol(ctx, mod, td, rule):
               ctx.where(mod, td))
 
 
+def plain_strip(ctx, mod, td, rule):
+    """to_dict('plain') gives the simulation `as initiated`: of the survey
+    it may drop only what a simulation derives (synthetic, residual,
+    weights); every other data set (observed, user data, noise arrays)
+    belongs to the survey and travels with it."""
+    derived = {'synthetic', 'residual', 'weights'}
+    odict = [s_ for s_ in td.body if isinstance(s_, ast.Assign) and
+             isinstance(s_.value, ast.Dict) and any(
+                 isinstance(k, ast.Constant) and k.value == '__class__'
+                 for k in s_.value.keys)]
+    ctx.anchor(len(odict) == 1, 'dict literal of Simulation.to_dict')
+    o = ast.unparse(odict[0].targets[0])
+    # names bound to (parts of) the survey dict
+    alias = {o}
+    for a in ast.walk(td):
+        if isinstance(a, ast.Assign) and isinstance(
+                a.targets[0], ast.Name) and a is not odict[0] and \
+                _root_name(a.value) in alias and "'survey'" in \
+                ast.unparse(a.value):
+            alias.add(a.targets[0].id)
+    bad, n_del = [], 0
+    for st in ast.walk(td):
+        tgs = st.targets if isinstance(st, (ast.Assign, ast.Delete)) else \
+            [st.target] if isinstance(st, ast.AugAssign) else []
+        for t in tgs:
+            txt = ast.unparse(t)
+            if not (isinstance(t, ast.Subscript) and (
+                    txt.startswith(f"{o}['survey']") or
+                    (_root_name(t) in alias - {o}))):
+                continue
+            if isinstance(st, ast.Delete):
+                k = t.slice
+                lp = au.enclosing(st, ast.For)
+                keys = [k.value] if isinstance(k, ast.Constant) else (
+                    au.const_list(lp.iter) if lp is not None and isinstance(
+                        k, ast.Name) and ast.unparse(lp.target) == k.id
+                    else None)
+                if keys and set(keys) <= derived:
+                    n_del += 1
+                    continue
+            bad.append(st)
+        if isinstance(st, ast.Call) and isinstance(st.func, ast.Attribute) \
+                and st.func.attr in ('pop', 'clear', 'update', 'popitem') \
+                and (ast.unparse(st.func.value).startswith(f"{o}['survey']")
+                     or _root_name(st.func.value) in alias - {o}):
+            bad.append(st)
+    ctx.check(rule, "Simulation.to_dict: the survey keeps its own data sets",
+              not bad and n_del >= 1,
+              'to_dict changes the survey dictionary beyond deleting '
+              f'{sorted(derived)}: data sets of the survey (user data, noise '
+              'arrays) are lost in a plain copy / file',
+              ctx.where(mod, bad[0] if bad else td))
+
+
 def rule_OW5(ctx, mod, E):
     cp = E.members['copy']
     ret = [n for n in ast.walk(cp) if isinstance(n, ast.Return)]
@@ -878,6 +933,7 @@ def run(ctx):
     rule_OW4(ctx, mod, E)
     rule_OW5(ctx, mod, E)
     rule_OW5_roundtrip(ctx, mod, E)
+    plain_strip(ctx, mod, E.members['to_dict'], 'C12.OW5.roundtrip')
     rule_OW6(ctx, mod, E)
     rule_OW6_serial(ctx, mod, E)
     rule_OW7(ctx, mod, E)
